@@ -462,13 +462,6 @@ static unsigned long lh_char_hash(const void *k)
 #else
 #define RANDOM_SEED_TYPE int
 #endif
-	static volatile RANDOM_SEED_TYPE random_seed = -1;
-
-	if (random_seed == -1)
-	{
-		RANDOM_SEED_TYPE seed;
-		/* we can't use -1 as it is the uninitialized sentinel */
-		while ((seed = json_c_get_random_seed()) == -1) {}
 #if SIZEOF_INT == 8 && defined __GCC_HAVE_SYNC_COMPARE_AND_SWAP_8
 #define USE_SYNC_COMPARE_AND_SWAP 1
 #endif
@@ -478,17 +471,35 @@ static unsigned long lh_char_hash(const void *k)
 #if SIZEOF_INT == 2 && defined __GCC_HAVE_SYNC_COMPARE_AND_SWAP_2
 #define USE_SYNC_COMPARE_AND_SWAP 1
 #endif
+	static volatile RANDOM_SEED_TYPE random_seed = -1;
+	RANDOM_SEED_TYPE cur_seed;
+
 #if defined USE_SYNC_COMPARE_AND_SWAP
-		(void)__sync_val_compare_and_swap(&random_seed, -1, seed);
+	/* read it atomically: another thread may be publishing the seed right now */
+	cur_seed = __sync_val_compare_and_swap(&random_seed, -1, -1);
+#else
+	cur_seed = random_seed;
+#endif
+	if (cur_seed == -1)
+	{
+		RANDOM_SEED_TYPE seed;
+		/* we can't use -1 as it is the uninitialized sentinel */
+		while ((seed = json_c_get_random_seed()) == -1) {}
+#if defined USE_SYNC_COMPARE_AND_SWAP
+		cur_seed = __sync_val_compare_and_swap(&random_seed, -1, seed);
+		if (cur_seed == -1)
+			cur_seed = seed; /* ours is the one that got published */
 #elif defined _MSC_VER || defined __MINGW32__
 		InterlockedCompareExchange(&random_seed, seed, -1);
+		cur_seed = random_seed;
 #else
 		//#warning "racy random seed initialization if used by multiple threads"
 		random_seed = seed; /* potentially racy */
+		cur_seed = seed;
 #endif
 	}
 
-	return hashlittle((const char *)k, strlen((const char *)k), (uint32_t)random_seed);
+	return hashlittle((const char *)k, strlen((const char *)k), (uint32_t)cur_seed);
 }
 
 int lh_char_equal(const void *k1, const void *k2)
